@@ -134,6 +134,8 @@ pub struct ThreadSt {
     pub notified: bool,
     pub timed_out: bool,
     pub name: String,
+    /// how often this thread has entered a condvar wait / a channel receive that blocked
+    pub blocking_ops: u64,
 }
 
 pub struct ChanSt {
@@ -605,20 +607,61 @@ pub fn register_thread(st: &mut State, name: Option<String>) -> Tid {
         notified: false,
         timed_out: false,
         name: name.unwrap_or_else(|| format!("thread{}", tid)),
+        blocking_ops: 0,
     });
     tid
 }
 
 pub const STACK_SIZE: usize = 512 * 1024;
 
+// OS threads are reused across executions: creating and destroying a thread costs far
+// more than a whole small execution.  A thread that is parked for ever in an abandoned
+// execution simply never comes back to the pool.
+type Job = Box<dyn FnOnce() + Send + 'static>;
+static POOL: StdMutex<Vec<std::sync::mpsc::Sender<Job>>> = StdMutex::new(Vec::new());
+
+pub fn spawn_os(job: Job) {
+    let mut job = job;
+    loop {
+        let idle = POOL.lock().unwrap_or_else(|e| e.into_inner()).pop();
+        match idle {
+            Some(tx) => match tx.send(job) {
+                Ok(()) => return,
+                Err(e) => job = e.0,
+            },
+            None => break,
+        }
+    }
+    let (tx, rx) = std::sync::mpsc::channel::<Job>();
+    tx.send(job).expect("vrt: fresh pool channel");
+    std::thread::Builder::new()
+        .stack_size(STACK_SIZE)
+        .spawn(move || {
+            while let Ok(job) = rx.recv() {
+                job();
+                POOL.lock().unwrap_or_else(|e| e.into_inner()).push(tx.clone());
+            }
+        })
+        .expect("vrt: cannot spawn thread");
+}
+
 /// Body wrapper shared by `run` and `thread::spawn`.
-pub fn controlled_body<T>(c: Ctx, f: impl FnOnce() -> T) -> std::thread::Result<T> {
+pub fn controlled_body<T>(c: Ctx, f: impl FnOnce() -> T) {
+    controlled_body_with(c, f, |_| ())
+}
+
+/// `deliver` receives the thread's result before the thread is marked finished.
+pub fn controlled_body_with<T>(
+    c: Ctx,
+    f: impl FnOnce() -> T,
+    deliver: impl FnOnce(std::thread::Result<T>),
+) {
     set_ctx(Some(c.clone()));
     thread_begin(&c);
     let r = std::panic::catch_unwind(std::panic::AssertUnwindSafe(f));
+    deliver(r);
     thread_end(&c);
     set_ctx(None);
-    r
 }
 
 #[derive(Clone, Debug)]
@@ -674,12 +717,9 @@ pub fn run<F: FnOnce() + Send + 'static>(cfg: &RunCfg, f: F) -> RunResult {
         exec: exec.clone(),
         tid: 0,
     };
-    let handle = std::thread::Builder::new()
-        .stack_size(STACK_SIZE)
-        .spawn(move || {
-            let _ = controlled_body(c, f);
-        })
-        .expect("vrt: cannot spawn thread");
+    spawn_os(Box::new(move || {
+        let _ = controlled_body(c, f);
+    }));
     let mut st = lock_state(&exec);
     dispatch(&exec, &mut st);
     while st.end.is_none() {
@@ -708,9 +748,6 @@ pub fn run<F: FnOnce() + Send + 'static>(cfg: &RunCfg, f: F) -> RunResult {
         timer_fires: st.timer_fires,
     };
     drop(st);
-    if end == End::Clean {
-        let _ = handle.join();
-    }
     res
 }
 
